@@ -17,6 +17,14 @@ pub struct Histogram {
     counts: BTreeMap<Abstraction, usize>,
 }
 
+#[cfg(robopoker_verif)]
+impl Histogram {
+    /// verification hook: total mass and the counts per abstraction (as u64 codes) in key order
+    pub fn verif_parts(&self) -> (usize, Vec<(u64, usize)>) {
+        (self.mass, self.counts.iter().map(|(a, c)| (u64::from(*a), *c)).collect())
+    }
+}
+
 impl Histogram {
     pub fn set(&mut self, abs: Abstraction, count: usize) {
         self.counts.insert(abs, count);
